@@ -612,7 +612,7 @@ func c08Run(ctx *core.Ctx) {
 		}
 	}
 	// lengths around the block sizes a fill or copy loop might use: every data kind, every cell compared
-	for _, l := range []int{15, 16, 17, 63, 64, 65, 127, 128, 129, 192, 255, 256, 257, 1024} {
+	for _, l := range []int{15, 16, 17, 63, 64, 65, 127, 128, 129, 192, 255, 256, 257, 1024, 4095, 4096, 4097, 5000, 12000} {
 		for _, kind := range []string{"ints", "floats", "bools", "constint", "constfloat", "constbool", "conststring", "constnil"} {
 			if ctx.Mine() {
 				execNew(newCase{Cols: []colSpec{{Name: "a", Kind: kind, Len: l}, {Name: "b", Kind: "ints", Len: l}}})
